@@ -623,6 +623,10 @@ static void run_c04() {
         run_termset(*g_list, {{'r', "[^a]"}, {'c', "a"}}, bytes, false, 0);
         run_termset(*g_list, {{'c', "\xe9"}, {'s', "\xc3\xa9"}, {'c', "a"}}, bytes, false, 0);   // char and string terms made of bytes >= 0x80
         run_termset(*g_list, {{'s', "a\xff"}, {'c', "\x80"}, {'c', "\xff"}}, bytes, false, 0);
+        {   // a string term with an embedded NUL byte: its length is that of the array, not of the C string
+            std::vector<std::string> nul = bytes; for (const char* x : {"a", "ab", "b"}) { std::string t(x); nul.push_back(std::string("a\0b", 3) + t); nul.push_back(t + std::string("a\0b", 3)); nul.push_back(std::string("a\0", 2) + t); }
+            run_termset(*g_list, {{'s', std::string("a\0b", 3)}, {'c', "a"}, {'c', "b"}}, nul, false, 0);
+            run_termset(*g_list, {{'c', "a"}, {'s', std::string("\0\0", 2)}, {'s', std::string("b\0", 2)}}, nul, false, 0); }
         ctr["C04.byte_sweep_inputs"] += (long)bytes.size() * 3;
     }
 }
